@@ -19,7 +19,7 @@ import server_common  # noqa: E402
 def main():
     tier = vlib.tier_arg(sys.argv)
     rep = vlib.Report("C01", tier, "model_checking")
-    binary = server_common.build()
+    binary = rep.try_build(server_common.build, "tier 1 (scheduled harness in server/lib)")
     U = "all interleavings up to Mazurkiewicz equivalence (unbounded preemptions; DPOR + sleep sets)"
     W = "client RedialPacketConn + encapsulationPacketConn (dial mirrors dialContext: token, ClientID) -> transparent relay -> server token check + turbotunnelMode + QueuePacketConn, stop-and-wait ARQ on both ends"
     if tier == "quick":
@@ -36,8 +36,11 @@ def main():
             {"harness": "c01", "cfg": {"faults": "2", "payloads": "1", "maxidx": "5"}, "budget_s": 550, "label": "2 faults x write index 0..4 each: " + U},
         ]
         total = 900
-    summary, tot, samples, exh = sched.run_passes(rep, binary, passes, total)
-    sched.sched_coverage(rep, summary, tot, samples, exh)
+    if binary:
+        summary, tot, samples, exh = sched.run_passes(rep, binary, passes, total)
+        sched.sched_coverage(rep, summary, tot, samples, exh)
+    else:
+        rep.coverage.update({"exhaustive": False, "traces_validated_against_impl": 0})
     # tier 2: real stacks on loopback
     try:
         eb = client_t2_common.build()
@@ -49,8 +52,8 @@ def main():
         rep.coverage["traces_validated_against_impl"] += res["evaluations"]
         if not res["exhaustive"]:
             rep.coverage["exhaustive"] = False
-    except vlib.EngineError as e:
-        rep.engine_errors.append(str(e))
+    except (vlib.EngineError, SystemExit) as e:
+        rep.engine_errors.append("tier 2: " + str(e))
     rep.assumptions += [
         "virtual time: computation is instantaneous relative to timers",
         "tier 1: KCP+smux are replaced by a stop-and-wait ARQ driver (retransmit every 1 s of virtual time); the proxy is a transparent relay preserving message boundaries client->server; the pion data channel, real proxies under SIGKILL/SIGSTOP and KCP/smux internals are not covered",
